@@ -37,6 +37,9 @@ pub uninterp spec fn is_module_ty(t: TypeLayout) -> bool;                       
 impl ReassignmentPath { #[verifier::external_body] pub fn for_type(&self) -> (r: Result<TypeLayout, VErr>) ensures r is Ok <==> path_type(*self) is Some, r is Ok ==> r->Ok_0 == path_type(*self)->Some_0 { unimplemented!() } }
 #[verifier::external_body] pub fn assume_type_of_self(t: TypeLayout) -> (r: TypeLayout) ensures r == as_self(t) { unimplemented!() }
 #[verifier::external_body] pub fn type_is_module(t: &TypeLayout) -> (r: bool) ensures r == is_module_ty(*t) { unimplemented!() }
+// the same kind test on the type as written (an alias / optional / captured wrapper not looked through): NOT known to see every module value
+pub uninterp spec fn raw_is_module_ty(t: TypeLayout) -> bool;
+#[verifier::external_body] pub fn raw_type_is_module(t: &TypeLayout) -> (r: bool) ensures r == raw_is_module_ty(*t) { unimplemented!() }
 #[verifier::external_body] pub fn parse_dot_chain(op: Node, t: &TypeLayout) -> (r: Result<(PathRest, TypeLayout), VErr>) { unimplemented!() }
 #[verifier::external_body] pub fn span_of(n: &Node) -> (r: Span) { unimplemented!() }
 """
@@ -92,6 +95,7 @@ def build(repo):
         Rule("R3", ". to_err_vec ( ) ?", "?", why="error vector wrapper dropped"),
         Rule("R6", "lhs_ty . assume_type_of_self ( & user_data )", "assume_type_of_self ( lhs_ty )", why="abstract"),
         Rule("R6", "matches ! ( lhs_ty . disregard_distractors ( false ) , TypeLayout :: Module ( .. ) )", "type_is_module ( & lhs_ty )", why="kind test on the (unwrapped) type: abstract predicate"),
+        Rule("R6", "matches ! ( lhs_ty , TypeLayout :: Module ( .. ) )", "raw_type_is_module ( & lhs_ty )", why="kind test on the type as written (wrappers not looked through): a different abstract predicate"),
         Rule("R6", "Parser :: dot_chain ( Node :: new_with_user_data ( op , Rc :: clone ( & user_data ) ) , Cow :: Borrowed ( & lhs_ty ) , ) ?", "parse_dot_chain ( op , & lhs_ty ) ?", why="sub-parser abstract"),
         Rule("R1", "expected_type . into_owned ( )", "expected_type", why="Cow::into_owned"),
     ], log, "parse_path[dot_chain]")
